@@ -230,7 +230,7 @@ def flipped(spec):
 def cases(draw, tier):
     provs = draw(st.sampled_from([("machine",), ("machine", "model"), ("machine", "model", "l0")]))
     async_mode = draw(st.sampled_from(["none", "none", "all", "mixed"]))
-    spec = draw(gen.machine_spec(max_states=4, max_extra=5, providers=provs, async_mode=async_mode, sends=draw(st.sampled_from([False, False, True]))))
+    spec = draw(gen.machine_spec(max_states=4, max_extra=5, providers=provs, async_mode=async_mode, sends=draw(st.sampled_from([False, False, True])), instance_cbs=True))
     other = draw(gen.machine_spec(max_states=3, max_extra=4, providers=provs, async_mode=draw(st.sampled_from(["none", "all"])), sends=False))
     # the unrelated definition uses the very same callback names where it can
     is_async = gen.is_async_spec(spec)
@@ -259,10 +259,12 @@ def cases(draw, tier):
             evs = [{"ev": draw(st.sampled_from(spec["events"] + ["nope"])), "args": [], "kw": {"d": k}} for k in range(draw(st.integers(1, 2)))]
             hist.append({"op": "drive_from_callback", "events": evs, "then": step})
             continue
+        if draw(st.integers(0, 9)) == 0:
+            hist.append({"op": "deficient_instance"})
         if have_sib and draw(st.integers(0, 3)) == 0:
             step = dict(step, target="sib")
         hist.append(step)
-    return {"spec": spec, "cfg": cfg, "history": hist, "noise_specs": [flipped(spec), other], "driver_listener": not is_async}
+    return {"spec": spec, "cfg": cfg, "history": hist, "noise_specs": [flipped(spec), other], "driver_listener": not is_async, "sib_instance_cbs": draw(st.booleans())}
 
 
 def strategy(tier):
